@@ -99,14 +99,28 @@ pub enum Layout {
     /// offset 0 but shorter than the buffers: one more copy of the last row (so that a run-end array is
     /// cut inside its last run) and one adversarial row follow, then `slice(0, len)`
     Truncated,
+    /// dictionary sources only: dense keys, `2 * len + 3` unreferenced (adversarial / default) dictionary values
+    DictExtras,
+    /// dictionary sources only: nulls are valid keys that refer to a NULL dictionary value
+    DictNullValue,
+    /// dictionary sources only: both of the above (sparse dictionary whose referenced null value sits among
+    /// adversarial unreferenced values)
+    DictExtrasNullValue,
 }
+pub const DICT_LAYOUTS: [Layout; 3] = [Layout::DictExtras, Layout::DictNullValue, Layout::DictExtrasNullValue];
 impl Layout {
+    pub fn null_is_dictionary_value(&self) -> bool {
+        matches!(self, Layout::DictNullValue | Layout::DictExtrasNullValue)
+    }
     pub fn name(&self) -> &'static str {
         match self {
             Layout::Compact => "compact",
             Layout::Sliced => "sliced",
             Layout::Garbage => "garbage-under-nulls",
             Layout::Truncated => "truncated",
+            Layout::DictExtras => "dict-unreferenced-values",
+            Layout::DictNullValue => "dict-null-value",
+            Layout::DictExtrasNullValue => "dict-unreferenced-values+null-value",
         }
     }
     pub fn parse(s: &str) -> Layout {
@@ -114,6 +128,9 @@ impl Layout {
             "sliced" => Layout::Sliced,
             "garbage-under-nulls" => Layout::Garbage,
             "truncated" => Layout::Truncated,
+            "dict-unreferenced-values" => Layout::DictExtras,
+            "dict-null-value" => Layout::DictNullValue,
+            "dict-unreferenced-values+null-value" => Layout::DictExtrasNullValue,
             _ => Layout::Compact,
         }
     }
@@ -394,50 +411,7 @@ pub fn build(dt: &DataType, rows: &[V], garbage: bool) -> ArrayRef {
             let entries = StructArray::new(kv.clone(), vec![karr, varr], None);
             Arc::new(MapArray::new(f.clone(), OffsetBuffer::from_lengths(lens), entries, nulls, *ordered))
         }
-        Dictionary(k, vt) => {
-            // dictionary values: distinct non-null payloads in first-occurrence order; a null row's key
-            // points at entry 0 (compact) or at an extra, otherwise unused, garbage entry (garbage layout)
-            let mut dict: Vec<V> = vec![];
-            let mut keys: Vec<i128> = vec![];
-            for r in rows {
-                if r.is_null() {
-                    keys.push(-1);
-                } else {
-                    let pos = dict.iter().position(|d| d == r).unwrap_or_else(|| {
-                        dict.push(r.clone());
-                        dict.len() - 1
-                    });
-                    keys.push(pos as i128);
-                }
-            }
-            let null_key = if garbage && rows.iter().any(|r| r.is_null()) {
-                dict.push(garbage_value(vt));
-                (dict.len() - 1) as i128
-            } else {
-                0
-            };
-            let keys: Vec<V> = keys.into_iter().map(|k| V::I(if k < 0 { null_key } else { k })).collect();
-            let values = build(vt, &dict, garbage);
-            macro_rules! dict {
-                ($t:ty) => {{
-                    let karr = build(k, &keys, false);
-                    let karr = karr.as_primitive::<$t>().clone();
-                    let karr = PrimitiveArray::<$t>::new(karr.values().clone(), nulls);
-                    Arc::new(DictionaryArray::<$t>::try_new(karr, values).unwrap()) as ArrayRef
-                }};
-            }
-            match **k {
-                Int8 => dict!(Int8Type),
-                Int16 => dict!(Int16Type),
-                Int32 => dict!(Int32Type),
-                Int64 => dict!(Int64Type),
-                UInt8 => dict!(UInt8Type),
-                UInt16 => dict!(UInt16Type),
-                UInt32 => dict!(UInt32Type),
-                UInt64 => dict!(UInt64Type),
-                _ => unreachable!(),
-            }
-        }
+        Dictionary(k, vt) => build_dict(k, vt, rows, garbage, false, false),
         RunEndEncoded(k, vf) => {
             // maximal runs of equal logical values (nulls live in the values child)
             let mut ends: Vec<V> = vec![];
@@ -460,6 +434,68 @@ pub fn build(dt: &DataType, rows: &[V], garbage: bool) -> ArrayRef {
             }
         }
         other => panic!("harness: build does not support {other}"),
+    }
+}
+
+/// Dictionary realisations of one logical column.
+/// * dense (`extras == false`, `null_value == false`): values = the distinct non-null payloads in first-occurrence
+///   order; a null row is a null KEY whose payload points at entry 0 (or, with `garbage`, at an otherwise unused
+///   adversarial entry);
+/// * `extras`: `2 * len + 3` unreferenced entries follow the referenced ones (adversarial value, type default,
+///   adversarial, ...), so that `values.len() > 2 * keys.len()` (the library's "sparse dictionary" paths) and the
+///   values contain out-of-range numbers / unparsable text / invalid UTF-8 that no row refers to;
+/// * `null_value`: a null row is a VALID key that refers to a NULL dictionary value (no validity buffer on the keys).
+fn build_dict(k: &DataType, vt: &DataType, rows: &[V], garbage: bool, extras: bool, null_value: bool) -> ArrayRef {
+    use DataType::*;
+    let mut dict: Vec<V> = vec![];
+    let mut keys: Vec<i128> = vec![];
+    for r in rows {
+        if r.is_null() {
+            keys.push(-1);
+        } else {
+            let pos = dict.iter().position(|d| d == r).unwrap_or_else(|| {
+                dict.push(r.clone());
+                dict.len() - 1
+            });
+            keys.push(pos as i128);
+        }
+    }
+    let has_null = rows.iter().any(|r| r.is_null());
+    let null_key = if null_value && has_null {
+        dict.push(V::Null);
+        (dict.len() - 1) as i128
+    } else if garbage && has_null {
+        dict.push(garbage_value(vt));
+        (dict.len() - 1) as i128
+    } else {
+        0
+    };
+    if extras {
+        for j in 0..2 * rows.len() + 3 {
+            dict.push(if j % 2 == 0 { garbage_value(vt) } else { default_value(vt) });
+        }
+    }
+    let keys: Vec<V> = keys.into_iter().map(|k| V::I(if k < 0 { null_key } else { k })).collect();
+    let nulls = if null_value { None } else { nulls_of(rows) };
+    let values = build(vt, &dict, garbage);
+    macro_rules! dict {
+        ($t:ty) => {{
+            let karr = build(k, &keys, false);
+            let karr = karr.as_primitive::<$t>().clone();
+            let karr = PrimitiveArray::<$t>::new(karr.values().clone(), nulls);
+            Arc::new(DictionaryArray::<$t>::try_new(karr, values).unwrap()) as ArrayRef
+        }};
+    }
+    match *k {
+        Int8 => dict!(Int8Type),
+        Int16 => dict!(Int16Type),
+        Int32 => dict!(Int32Type),
+        Int64 => dict!(Int64Type),
+        UInt8 => dict!(UInt8Type),
+        UInt16 => dict!(UInt16Type),
+        UInt32 => dict!(UInt32Type),
+        UInt64 => dict!(UInt64Type),
+        _ => unreachable!(),
     }
 }
 
@@ -526,6 +562,10 @@ pub fn realise(dt: &DataType, rows: &[V], layout: Layout) -> ArrayRef {
             let a = build(dt, &all, false);
             a.slice(0, rows.len())
         }
+        Layout::DictExtras | Layout::DictNullValue | Layout::DictExtrasNullValue => match dt {
+            DataType::Dictionary(k, vt) => build_dict(k, vt, rows, false, layout != Layout::DictNullValue, layout.null_is_dictionary_value()),
+            _ => build(dt, rows, false),
+        },
     }
 }
 
@@ -784,6 +824,8 @@ pub fn grid() -> Vec<DataType> {
     g.push(Dictionary(Box::new(Int8), Box::new(Utf8)));
     g.push(Dictionary(Box::new(UInt16), Box::new(Utf8)));
     g.push(Dictionary(Box::new(Int32), Box::new(Int32)));
+    g.push(Dictionary(Box::new(Int8), Box::new(Binary)));
+    g.push(Dictionary(Box::new(Int32), Box::new(LargeBinary)));
     g.push(ree_type(Int16, Int32));
     g.push(ree_type(Int32, Utf8));
     for inner in [Int32, Utf8] {
